@@ -173,28 +173,36 @@ def registry_snapshot():
 
     def q(c):
         return c.__module__ + "." + c.__qualname__
-    snap = {
-        "commands": [q(c) for c in command.Command._commands],
-        "framesizes": {str(k): [q(c) for c in v] for k, v in command.Command._framesizes.items()},
-        "gearcommands": [q(c) for c in gg._GearCommand._gearcommands],
-        "std_opcodes": sorted((str(k), q(c)) for k, c in gg._StandardCommand._opcodes.items()),
-        "special_opcodes": sorted((str(k), q(c)) for k, c in gg._SpecialCommand._opcodes.items()),
-        "devicecommands": [q(c) for c in dg._DeviceCommand._devicecommands],
-        "dev_opcodes": sorted((str(k), q(c)) for k, c in dg._StandardDeviceCommand._opcodes.items()),
-        "inst_opcodes": sorted((str(k), q(c)) for k, c in dg._StandardInstanceCommand._opcodes.items()),
-        "instance_types": sorted((str(k), q(c)) for k, c in dg._Event._instance_types.items()),
-        "pushbutton_events": sorted((str(k), q(c)) for k, c in pushbutton._PushbuttonEvent._event_classes.items()),
-        "addrtypes": [q(c) for c in address.Address._addrtypes],
-        "supported_devicetypes": sorted(command.Command._supported_devicetypes),
+    # every entry is computed on its own: a registry that is missing or malformed becomes part of the snapshot
+    # (and so of the comparison) instead of crashing the harness
+    entries = {
+        "commands": lambda: [q(c) for c in command.Command._commands],
+        "framesizes": lambda: {str(k): [q(c) for c in v] for k, v in command.Command._framesizes.items()},
+        "gearcommands": lambda: [q(c) for c in gg._GearCommand._gearcommands],
+        "std_opcodes": lambda: sorted((str(k), q(c)) for k, c in gg._StandardCommand._opcodes.items()),
+        "special_opcodes": lambda: sorted((str(k), q(c)) for k, c in gg._SpecialCommand._opcodes.items()),
+        "devicecommands": lambda: [q(c) for c in dg._DeviceCommand._devicecommands],
+        "dev_opcodes": lambda: sorted((str(k), q(c)) for k, c in dg._StandardDeviceCommand._opcodes.items()),
+        "inst_opcodes": lambda: sorted((str(k), q(c)) for k, c in dg._StandardInstanceCommand._opcodes.items()),
+        "instance_types": lambda: sorted((str(k), q(c)) for k, c in dg._Event._instance_types.items()),
+        "pushbutton_events": lambda: sorted((str(k), q(c)) for k, c in pushbutton._PushbuttonEvent._event_classes.items()),
+        "addrtypes": lambda: [q(c) for c in address.Address._addrtypes],
+        "supported_devicetypes": lambda: sorted(command.Command._supported_devicetypes),
         # class-level attributes that decoding consults or that drivers act on: decoding must not write to them
-        "class_flags": [[q(c), repr(getattr(c, "devicetype", None)), repr(getattr(c, "sendtwice", None)),
-                         q(c.response) if getattr(c, "response", None) is not None else None,
-                         repr(getattr(c, "_cmdval", None)), repr(getattr(c, "_opcode", None)),
-                         repr(getattr(c, "_hasparam", None)), repr(getattr(c, "_framesize", None)),
-                         repr(getattr(c, "_instance_type", None)), repr(getattr(c, "_event_info", None)),
-                         repr(getattr(c, "_addr", None)), repr(getattr(c, "_instance", None))]
-                        for c in command.Command._commands],
+        "class_flags": lambda: [[q(c), repr(getattr(c, "devicetype", None)), repr(getattr(c, "sendtwice", None)),
+                                 q(c.response) if getattr(c, "response", None) is not None else None,
+                                 repr(getattr(c, "_cmdval", None)), repr(getattr(c, "_opcode", None)),
+                                 repr(getattr(c, "_hasparam", None)), repr(getattr(c, "_framesize", None)),
+                                 repr(getattr(c, "_instance_type", None)), repr(getattr(c, "_event_info", None)),
+                                 repr(getattr(c, "_addr", None)), repr(getattr(c, "_instance", None))]
+                                for c in command.Command._commands],
     }
+    snap = {}
+    for k, fn in entries.items():
+        try:
+            snap[k] = fn()
+        except Exception as e:  # noqa
+            snap[k] = "<%s>" % type(e).__name__
     return hashlib.sha256(json.dumps(snap, sort_keys=True).encode()).hexdigest()
 
 
@@ -207,6 +215,10 @@ def pristine_baseline():
     r = subprocess.run([sys.executable, "-B", os.path.abspath(__file__), "--baseline"], env=env,
                        capture_output=True, text=True, cwd=VERIF)
     if r.returncode != 0:
+        if "/dali/" in r.stderr and "/verif/harness" not in r.stderr.splitlines()[-3:][0]:
+            # the library itself fails in a fresh interpreter (importing, decoding the probes or exposing its
+            # registries): reported as a violation by run(), the remaining strata run without the purity baseline
+            return {"error": r.stderr[-1500:]}
         raise RuntimeError("baseline subprocess failed: " + r.stderr[-2000:])
     return json.loads(r.stdout)
 
@@ -269,7 +281,10 @@ def import_history_check(res, name):
 def _import_shard(name):
     res = Result()
     if not _BASELINE:
-        _BASELINE.update(pristine_baseline())
+        base = pristine_baseline()
+        if "error" in base:
+            return res
+        _BASELINE.update(base)
     import_history_check(res, name)
     res.sample({"kind": "import-history", "name": name}, cls="import history")
     return res
@@ -730,7 +745,10 @@ def run_case(case):
     if kind == "purity":
         res = Result()
         if not _BASELINE:
-            _BASELINE.update(pristine_baseline())
+            base = pristine_baseline()
+            if "error" in base:
+                return [("C01:pristine-interpreter-fails", base["error"][-600:])]
+            _BASELINE.update(base)
         purity_check(res, "replay")
         return [(s, v["msg"]) for s, v in res.violations.items()]
     raise ValueError(kind)
@@ -757,7 +775,13 @@ def _hyp_shard(arg):
 
 
 def run(ctx):
-    _BASELINE.update(pristine_baseline())
+    base = pristine_baseline()
+    if "error" in base:
+        ctx.result.violation("C01:pristine-interpreter-fails", {"kind": "purity", "where": "baseline"},
+                             "a fresh interpreter that imports the library, decodes the probe set and reads the registries "
+                             "named in the property's anchors fails: " + base["error"][-600:])
+    else:
+        _BASELINE.update(base)
     q = ctx.quick
     s = ctx.seed
     shards = []
